@@ -351,11 +351,16 @@ def opaque_stream(rep, rng, n_cases):
            Box("flip", 2, 2, lambda a, b: (b, a)), Box("first", 2, 1, lambda a, b: a),
            Box("pair", 2, 1, lambda a, b: [a, b]), Box("unit", 0, 1, lambda: []),
            Box("drop", 1, 0, lambda a: ()), Box("wrap", 1, 1, lambda a: [a])]
+    # one Python function object shared by boxes of different arities (variadic functions, builtins)
+    rev, fst, lst = (lambda *xs: tuple(reversed(xs))), (lambda *xs: xs[0]), (lambda *xs: list(xs))
+    lib += [Box("rev2", 2, 2, rev), Box("rev3", 3, 3, rev), Box("fst2", 2, 1, fst), Box("fst3", 3, 1, fst),
+            Box("fst1", 1, 1, fst), Box("lst1", 1, 1, lst), Box("lst2", 2, 1, lst), Box("lst3", 3, 1, lst),
+            Box("len2", 2, 1, lambda *xs: len(xs)), Box("id1", 1, 1, rev)]
     bad = []
     for _ in range(n_cases):
-        n = rng.randint(0, 3)
+        n = rng.randint(0, 4)
         d = Id(n)
-        for _ in range(rng.randint(1, 4)):
+        for _ in range(rng.randint(1, 5)):
             w = len(d.cod)
             r = rng.random()
             if r < 0.2 and w >= 2:
